@@ -29,6 +29,7 @@ type C06Workload struct {
 	// descriptors for the evidence
 	NSeqs      int
 	Premerged  bool // some record carries a merged map of a requested key
+	Weighted   bool // the first merge descriptor is key:wgt
 	MissingCat bool // some record lacks a requested category attribute
 	ExplicitNA bool // some record carries the NA value explicitly in a category attribute
 	IntValues  bool // some requested attribute has integer values
@@ -89,6 +90,13 @@ func c06Domain(r *rand.Rand, name string, isInt bool, na string, withNA bool) []
 			d = append(d, i+r.Intn(2)*10)
 		} else {
 			d = append(d, fmt.Sprintf("%c%s%d", name[0], []string{"A", "b", "X_", "v"}[r.Intn(4)], i))
+		}
+	}
+	if isInt && r.Intn(4) == 0 {
+		// numeric values beyond the int64 range (20-digit identifiers): read back as floats
+		d = append(d, 1e19, 2e19)
+		if r.Intn(2) == 0 {
+			d = append(d, 1.2345678901234567e19)
 		}
 	}
 	// distinct printed forms
@@ -161,8 +169,19 @@ func C06Generate(r *rand.Rand, p C06Params) *C06Workload {
 	for _, k := range w.Opts.Cats {
 		isCat[k] = true
 	}
+	// one case in four: the first merge descriptor is weighted (-m key:wgt sums the integer attribute
+	// wgt of the records instead of their counts); the map is then named merged_key:wgt
+	weighted := map[string]string{}
+	if !p.OneMergeNoCatOverlap && len(w.Opts.Merge) > 0 && r.Intn(4) == 0 {
+		weighted[w.Opts.Merge[0]] = w.Opts.Merge[0] + ":wgt"
+		w.Opts.Merge = append([]string{w.Opts.Merge[0] + ":wgt"}, w.Opts.Merge[1:]...)
+		w.Weighted = true
+	}
 	isMerge := map[string]bool{}
 	for _, k := range w.Opts.Merge {
+		if i := strings.IndexByte(k, ':'); i >= 0 {
+			k = k[:i]
+		}
 		isMerge[k] = true
 	}
 	var attrs []c06Attr
@@ -222,7 +241,11 @@ func C06Generate(r *rand.Rand, p C06Params) *C06Workload {
 					c -= q
 					parts--
 				}
-				rec.Attrs["merged_"+a.name] = m
+				slot := "merged_" + a.name
+				if d, ok := weighted[a.name]; ok {
+					slot = "merged_" + d
+				}
+				rec.Attrs[slot] = m
 				w.Premerged = true
 				if len(m) == 1 && r.Intn(2) == 0 {
 					for v := range m { // the attribute survived the former merge: same value
@@ -244,6 +267,9 @@ func C06Generate(r *rand.Rand, p C06Params) *C06Workload {
 			} else if isCat[a.name] {
 				w.MissingCat = true
 			}
+		}
+		if len(weighted) > 0 && r.Intn(100) < 85 {
+			rec.Attrs["wgt"] = []int{0, 1, 1, 2, 5, 20}[r.Intn(6)]
 		}
 		w.Recs = append(w.Recs, rec)
 	}
